@@ -13,7 +13,8 @@ EXTENDS CoreBGP
 
 CONSTANTS Faults,       \* how many faults the environment may inject in total
           LivePassive,  \* the peer is passive (the remote then has to connect)
-          RemoteDials   \* the remote opens connections of its own
+          RemoteDials,  \* the remote opens connections of its own
+          LiveConns     \* connection names available at a time (2 or 3)
 
 P == "p"
 LocalID == <<10, 0, 0, 5>>
@@ -45,7 +46,7 @@ LInit ==
   /\ budget = Faults
   /\ rid \in RemoteIDs
 
-ConnNames == {"c1", "c2", "c3"}
+ConnNames == IF LiveConns = 2 THEN {"c1", "c2"} ELSE {"c1", "c2", "c3"}
 Free == ConnNames \ DOMAIN conn
 NextName == CHOOSE c \in Free : \A x \in Free : x = c \/ ~(\E i, j \in 1..3 :
                <<"c1", "c2", "c3">>[i] = x /\ <<"c1", "c2", "c3">>[j] = c /\ i < j)
